@@ -598,4 +598,126 @@ def frontDiskTotal (rows : List (List Nat)) : List Nat :=
   | [] => []
   | r :: rs => rs.foldl (fun acc x => List.zipWith (· + ·) acc x) r
 
+/-! ## Front end, round 2: process identity, equality on Open/NetBSD, signals
+
+  `Process._get_ident` (branch `WINDOWS`), `Process.__eq__` (branch `OPENBSD or NETBSD`),
+  `Process._send_signal` (branch `OPENBSD and pid_exists(pid)`), `Process.send_signal` (branch `POSIX`)
+  and the Windows platform layer's `send_signal` / `create_time(fast_only=True)` they reach. -/
+
+/-- handler a native call of `create_time` sits under when the front end asks for the identity:
+    Windows passes `fast_only=True`, and then a permission error is re-raised instead of being
+    answered from the system-wide process list (`if fast_only: raise`) -/
+def innerIdent (cfg : Cfg) (p : Platform) (call : String) : Inner :=
+  if p == .windows && call == "proc_times" then .escapes else inner cfg p "create_time" call
+
+/-- `self._proc.create_time(fast_only=True)` (Windows) / `self.create_time()` (elsewhere) inside
+    `Process._get_ident`, when native call `call` raises `e` -/
+def identFault (cfg : Cfg) (p : Platform) (m : Method) (call : String) (e : Err) (env : Env) : Outcome :=
+  (finish cfg p m (bodyWith cfg p (innerIdent cfg p call) e env false) env false).1
+
+/-- what `Process._init` is left with -/
+inductive InitRes
+  /-- the object exists: `_ident = (pid, ctime?)`, `_create_time` cache, `_gone` flag -/
+  | built (identCtime : Option Nat) (ctimeCache : Option Nat) (gone : Bool)
+  /-- `NoSuchProcess(pid, msg="process PID not found")` -/
+  | raisesNsp
+  /-- any other exception leaves the constructor unchanged -/
+  | raisesOther (e : Err)
+  | unmodelled
+  deriving DecidableEq, Repr
+
+/-- `Process._init`: `self._ident = (self.pid, None)`; `try: self._ident = self._get_ident()`;
+    AccessDenied / ZombieProcess → pass; NoSuchProcess → raise (or, with `_ignore_nsp`, mark gone).
+    `o` = outcome of the creation-time query, `ct` the value it returns when it succeeds. -/
+def frontInit (ignoreNsp : Bool) (ct : Nat) (o : Outcome) : InitRes :=
+  match o with
+  | .value => .built (some ct) (some ct) false
+  | .ad _ _ | .zombie _ _ => .built none none false
+  | .nsp _ _ => if ignoreNsp then .built none none true else .raisesNsp
+  | .raw e => .raisesOther e
+  | .unmodelled => .unmodelled
+
+/-- truthiness of the second component of `_ident`: `None` and `0.0` are falsy -/
+def ctimeTruthy (c : Option Nat) : Bool :=
+  match c with
+  | some t => t != 0
+  | none => false
+
+/-- what `self.status()` gives inside `__eq__`: a status string (zombie or not), `ZombieProcess`
+    raised by the platform layer (the front-end `status()` turns it into STATUS_ZOMBIE), or another
+    psutil `Error` (swallowed by `except Error: pass`) -/
+inductive StatusRes | status (zombie : Bool) | zombieExc | error
+  deriving DecidableEq, Repr
+
+/-- `Process.__eq__(self, other)` for two Process objects with identities `i1`, `i2` -/
+def frontEq (openOrNetbsd : Bool) (i1 i2 : Nat × Option Nat) (st : StatusRes) : Bool :=
+  if openOrNetbsd && i1.1 == i2.1 && ctimeTruthy i1.2 && !ctimeTruthy i2.2 then
+    match st with
+    | .status z => z
+    | .zombieExc => true
+    | .error => i1 == i2
+  else i1 == i2
+
+/-- result of `os.kill(pid, sig)` -/
+inductive KillRes | ok | esrch | eperm | other (e : Err)
+  deriving DecidableEq, Repr
+
+def KillRes.ofErr (e : Err) : KillRes :=
+  match pyClass e.errno with
+  | .processLookup => .esrch
+  | .permission => .eperm
+  | _ => .other e
+
+inductive SigRes
+  | sent
+  | valueError              -- pid 0 is refused
+  | nsp (named : Bool)      -- NoSuchProcess(pid, name); `_gone` is set
+  | zombie (named : Bool)   -- ZombieProcess(pid, name, ppid)
+  | ad (named : Bool)
+  | raw (e : Err)
+  deriving DecidableEq, Repr
+
+/-- POSIX `Process._send_signal(sig)` on a process that is running and whose PID was not reused:
+    (result, new `_gone` flag) -/
+def frontSendSignalPosix (openbsd : Bool) (pid : Nat) (k : KillRes) (pidExists : Bool) : SigRes × Bool :=
+  if pid == 0 then (.valueError, false)
+  else match k with
+    | .ok => (.sent, false)
+    | .esrch => if openbsd && pidExists then (.zombie true, false) else (.nsp true, true)
+    | .eperm => (.ad true, false)
+    | .other e => (.raw e, false)
+
+/-- the signals the Windows branches distinguish -/
+inductive WinSig | sigterm | ctrlC | ctrlBreak | otherSig
+  deriving DecidableEq, Repr
+
+/-- which primitive ends up being used -/
+inductive WinSigAct
+  | procKill                -- `cext.proc_kill(pid)` (TerminateProcess)
+  | osKill                  -- `os.kill(pid, sig)` (GenerateConsoleCtrlEvent)
+  | valueError              -- "only SIGTERM, CTRL_C_EVENT and CTRL_BREAK_EVENT signals are supported on Windows"
+  | nspNotRunning           -- NoSuchProcess(pid, name, msg="process no longer exists")
+  deriving DecidableEq, Repr
+
+/-- `_pswindows.Process.send_signal(sig)` -/
+def winSendSignal (sig : WinSig) : WinSigAct :=
+  match sig with
+  | .sigterm => .procKill
+  | .ctrlC | .ctrlBreak => .osKill
+  | .otherSig => .valueError
+
+/-- front-end `Process.send_signal(sig)` off POSIX (after `_raise_if_pid_reused()` let it through) -/
+def frontSendSignalWin (sig : WinSig) (running : Bool) : WinSigAct :=
+  if sig != .sigterm && !running then .nspNotRunning else winSendSignal sig
+
+/-- front-end `terminate()` and `kill()` off POSIX: both `self._proc.kill()` -/
+def frontTerminateWin : WinSigAct := .procKill
+def frontKillWin : WinSigAct := .procKill
+
+/-- native call a `WinSigAct` makes (none for the two refusals) -/
+def WinSigAct.native? : WinSigAct → Option String
+  | .procKill => some "proc_kill"
+  | .osKill => some "os.kill"
+  | _ => none
+
 end Psutil.C20
